@@ -19,6 +19,13 @@ def struct_job(fam):
 
 
 JOBS = {
+    "C20": [
+        {"module": "MC_Canon", "spec": "Spec", "invariants": ["InvSorted", "InvPairs", "InvIdem", "InvStable", "InvSameKey", "InvF6Exact", "Emit"],
+         "quick": {"constants": {"MaxExtras": 2}, "timeout": 300},
+         "thorough": {"constants": {"MaxExtras": 3}, "timeout": 3000},
+         "rule": "16 subsets of the typed fields x every arrangement of up to MaxExtras distinct extra labels out of 16 (0, 6, 23, 24, 255, 256, "
+                 "-1, -2, -24, -25, -257, a, b, aa, 2^63-1, -2^63) x both orderings; each state = one key; non-trivial = at least two extras"},
+    ],
     "C06": [
         {"module": "MC_RoundTrip", "spec": "Spec", "invariants": ["InvWireFaithful", "InvVerify", "InvSameBytes", "InvTryErr", "Emit"],
          "quick": {"constants": {"MaxCalls": 2}, "timeout": 300},
